@@ -477,6 +477,16 @@ func checkC16(c *core.Ctx) {
 		}
 		doneSingle++
 	}
+	// the seeds beyond the swept ones at least as they are (0 deviations): a hand-kept boundary seed must not wait
+	// for the thorough tier because it is longer than the 40 shortest
+	doneAsIs := 0
+	for i := nSingle; i < len(seeds); i++ {
+		if !sweep(&seeds[i], 0) {
+			break
+		}
+		doneAsIs++
+	}
+	c.Set("seeds_run_unmutated_only", doneAsIs)
 	if c.Thorough() {
 		// all pairs of mutations on the smallest seeds
 		for i := 0; i < len(seeds) && i < 10; i++ {
